@@ -55,6 +55,17 @@ type Env struct {
 	wg     sync.WaitGroup
 	t0     time.Time
 	infra  string
+	limit  *time.Timer
+}
+
+// SetSimLimit replaces the cap on simulated time of this run (default 6h).
+func (e *Env) SetSimLimit(d time.Duration) {
+	if e.limit != nil {
+		e.limit.Stop()
+	}
+	e.limit = time.AfterFunc(d, func() {
+		e.Infra(fmt.Sprintf("simulated time limit of %v reached", d))
+	})
 }
 
 var (
@@ -116,10 +127,28 @@ func (e *Env) Go(name string, f func()) {
 	}()
 }
 
-// WaitClients blocks until every client started with Go has returned.
-func (e *Env) WaitClients() {
-	e.wg.Wait()
-	e.S.Gate("harness:joined")
+// WaitClients blocks until every client started with Go has returned, or
+// until limit of simulated time has passed (then it returns false: some
+// client is stuck).
+func (e *Env) WaitClients(limit time.Duration) bool {
+	done := make(chan struct{})
+	go func() { e.wg.Wait(); close(done) }()
+	ok := e.WaitChan(done, limit)
+	return ok
+}
+
+// WaitChan waits for ch (closed or readable) for at most limit of simulated time.
+func (e *Env) WaitChan(ch <-chan struct{}, limit time.Duration) bool {
+	t := time.NewTimer(limit)
+	defer t.Stop()
+	select {
+	case <-ch:
+		e.S.Gate("harness:joined")
+		return true
+	case <-t.C:
+		e.S.Gate("harness:wait-timeout")
+		return false
+	}
 }
 
 // Fail records a violation (the first one wins) and switches the run to
@@ -220,7 +249,9 @@ func RunBubble(t *testing.T, spec SchedSpec, seed uint64, body func(e *Env)) (re
 			env.mu.Unlock()
 		}
 	}
+	setMapSeed(Mix(seed, 0x3a95))
 	defer func() {
+		clearMapSeed()
 		curSched.Store(nil)
 		if r := recover(); r != nil {
 			msg := fmt.Sprint(r)
@@ -240,6 +271,7 @@ func RunBubble(t *testing.T, spec SchedSpec, seed uint64, body func(e *Env)) (re
 		env = &Env{T: t, S: s, R: NewRand(Mix(seed, 0xe11f)), probes: map[string]int{}, faults: map[string]int{},
 			ehash: 0xcbf29ce484222325, t0: time.Now()}
 		curSched.Store(s)
+		env.SetSimLimit(6 * time.Hour)
 		go func() {
 			s.Name("main")
 			s.Gate("main:start")
@@ -255,6 +287,7 @@ func RunBubble(t *testing.T, spec SchedSpec, seed uint64, body func(e *Env)) (re
 		s.Abort()
 		<-s.done
 		mainDone = true
+		env.limit.Stop()
 		res.SimTime = time.Since(env.t0)
 	})
 	finish()
